@@ -158,19 +158,13 @@ theorem step_sim (reg : Registry) (s s' : PState) (t t' : Spec) (it : Item) (e e
       simp only [specStep, Prod.mk.injEq] at ht
       obtain ⟨rfl, rfl⟩ := hs
       obtain ⟨rfl, rfl⟩ := ht
-      refine ⟨rfl, fun h => (by cases h), fun _ => ⟨rfl, ?_⟩⟩
-      have := reprocess_err reg ((s.children ++ [Kind.ont]).dropLast.filter (· == Kind.ont)).length
-        { s with children := s.children ++ [Kind.ont] }
-      exact ⟨this.log, this.nEvents, this.counts⟩
+      exact ⟨rfl, fun h => (by cases h), fun _ => ⟨rfl, ⟨⟨[], by simp, fun c hc => by cases hc⟩, rfl, fun _ => rfl⟩⟩⟩
     | schemaSemOk =>
       simp only [pstep, Prod.mk.injEq] at hs
       simp only [specStep, Prod.mk.injEq] at ht
       obtain ⟨rfl, rfl⟩ := hs
       obtain ⟨rfl, rfl⟩ := ht
-      refine ⟨rfl, fun h => (by cases h), fun _ => ⟨rfl, ?_⟩⟩
-      have := (reprocess_err reg ((s.children ++ [Kind.ont]).dropLast.filter (· == Kind.ont)).length
-        { s with children := s.children ++ [Kind.ont] }).trans (processOnt_err reg _ types sources)
-      exact ⟨this.log, this.nEvents, this.counts⟩
+      exact ⟨rfl, fun h => (by cases h), fun _ => ⟨rfl, ⟨⟨[], by simp, fun c hc => by cases hc⟩, rfl, fun _ => rfl⟩⟩⟩
   | event idx type source gateOk =>
     simp only [pstep] at hs
     simp only [specStep] at ht
